@@ -215,17 +215,37 @@ def check_pair(res, p1, p2, levels, keys, commut=True, only=None):
     ('level', 'update_recursively', 'update_nested') - used by replay."""
     nontriv = _common_differing(p1, p2)
     f1, f2 = _canon(p1), _canon(p2)
+    variants = []
     if only in (None, "level"):
-        d1, d2 = R.fresh(p1), R.fresh(p2)
+        variants.append(False)
+        # the same laws when equal sub-dictionaries of an argument are one object (a value does not
+        # depend on whether equal parts of it are stored once or twice)
+        if R.aliased(p1)[1] or R.aliased(p2)[1]:
+            variants.append(True)
+    for alias in variants:
+        def mk1():
+            return R.aliased(p1)[0] if alias else R.fresh(p1)
+
+        def mk2():
+            return R.aliased(p2)[0] if alias else R.fresh(p2)
+
+        def _viol(c, observed, expected, cause):
+            if alias:
+                c = dict(c, aliased=True)
+                cause = dict(cause, shared_subdictionaries=True)
+            res.violation(c, observed, expected, cause)
+        d1, d2 = mk1(), mk2()
         for level in levels:
             case = {"kind": "pair", "d1": p1, "d2": p2, "level": level}
+            if alias:
+                case["aliased"] = True
             fin = level >= 0
             # ---- intersection
             inter = None
             try:
                 inter = intersection(d1, d2, level=level)
             except Exception as e:
-                res.violation(dict(case, law="intersection-glb"), "raised " + _exc_name(e), "a dictionary",
+                _viol(dict(case, law="intersection-glb"), "raised " + _exc_name(e), "a dictionary",
                               {"law": "intersection-glb", "raised": _exc_name(e)})
             if inter is not None:
                 exp = R.glb([p1, p2], level)
@@ -233,10 +253,10 @@ def check_pair(res, p1, p2, levels, keys, commut=True, only=None):
                 if not (R.isdict(inter) and inter == exp):
                     cause = _diff_cause("intersection-glb", inter, exp, p1, p2, level)
                     cause["n"] = 2
-                    res.violation(dict(case, law="intersection-glb"), inter, exp, cause)
+                    _viol(dict(case, law="intersection-glb"), inter, exp, cause)
                 sh = _shared(inter, (d1, d2))
                 if sh is not None:
-                    res.violation(dict(case, law="intersection-deepcopy"),
+                    _viol(dict(case, law="intersection-deepcopy"),
                                   "result shares a %s with argument %d" % sh, "no shared mutable object",
                                   {"law": "intersection-deepcopy", "shared": sh[0], "n": 2})
                 elif len(R.containers(inter)) > 1:
@@ -247,7 +267,7 @@ def check_pair(res, p1, p2, levels, keys, commut=True, only=None):
                     except Exception as e:
                         inter2 = "raised " + _exc_name(e)
                     if inter2 != inter:
-                        res.violation(dict(case, law="intersection-commutative"), [inter, inter2],
+                        _viol(dict(case, law="intersection-commutative"), [inter, inter2],
                                       "equal results",
                                       {"law": "intersection-commutative", "finite_level": fin})
             # ---- difference
@@ -255,21 +275,21 @@ def check_pair(res, p1, p2, levels, keys, commut=True, only=None):
             try:
                 dif = difference(d1, d2, level=level)
             except Exception as e:
-                res.violation(dict(case, law="difference-ref"), "raised " + _exc_name(e), "a dictionary",
+                _viol(dict(case, law="difference-ref"), "raised " + _exc_name(e), "a dictionary",
                               {"law": "difference-ref", "raised": _exc_name(e)})
             if dif is not None:
                 exp = R.diff(p1, p2, level)
                 _outcome(res, "D", dif)
                 if not (R.isdict(dif) and dif == exp):
-                    res.violation(dict(case, law="difference-ref"), R.fresh(dif), exp,
+                    _viol(dict(case, law="difference-ref"), R.fresh(dif), exp,
                                   _diff_cause("difference-ref", dif, exp, p1, p2, level))
             # ---- arguments unchanged (cheap test here, typed test below)
             if d1 != p1 or d2 != p2:
                 which = 1 if d1 != p1 else 2
-                res.violation(dict(case, law="argument-unchanged"), [R.fresh(d1), R.fresh(d2)], [p1, p2],
+                _viol(dict(case, law="argument-unchanged"), [R.fresh(d1), R.fresh(d2)], [p1, p2],
                               {"law": "argument-unchanged", "functions": "intersection/difference",
                                "arg": which})
-                d1, d2 = R.fresh(p1), R.fresh(p2)
+                d1, d2 = mk1(), mk2()
             # ---- reconstruct d1 from the two parts, with the real update_recursively
             if R.isdict(inter) and R.isdict(dif):
                 try:
@@ -282,16 +302,18 @@ def check_pair(res, p1, p2, levels, keys, commut=True, only=None):
                         cause = _diff_cause("reconstruct", rec, p1, p1, p2, level)
                     else:
                         cause = {"law": "reconstruct", "raised": rec}
-                    res.violation(dict(case, law="reconstruct"), R.fresh(rec), p1, cause)
+                    _viol(dict(case, law="reconstruct"), R.fresh(rec), p1, cause)
                 if d1 != p1:  # update_recursively wrote through an alias into d1
-                    res.violation(dict(case, law="argument-unchanged"), R.fresh(d1), p1,
+                    _viol(dict(case, law="argument-unchanged"), R.fresh(d1), p1,
                                   {"law": "argument-unchanged", "functions": "difference+update_recursively",
                                    "arg": 1})
-                    d1 = R.fresh(p1)
+                    d1 = mk1()
             res.case(nontrivial=nontriv)
+            if alias:
+                res.count("pairs_with_shared_subdictionaries")
         # the arguments survived all levels: typed comparison once more
         if _canon(d1) != f1 or _canon(d2) != f2:
-            res.violation({"kind": "pair", "d1": p1, "d2": p2, "level": levels[-1],
+            _viol({"kind": "pair", "d1": p1, "d2": p2, "level": levels[-1],
                            "law": "argument-unchanged"}, [R.fresh(d1), R.fresh(d2)], [p1, p2],
                           {"law": "argument-unchanged", "functions": "intersection/difference",
                            "arg": 1 if _canon(d1) != f1 else 2})
@@ -572,7 +594,9 @@ def selfcheck(res, tier):
 
 HIST_STARTS = [({}, {}), ({"a": 0}, {"b": {"a": 1}}), ({"a": {"b": 1}}, {"a": {}})]
 HIST_OTHERS = [("s", "a.b"), ("s", "a.b.c"), ("s", "b.a"), ("sv", "a.b", 7), ("sv", "a.b", {"c": 1}),
-               ("sv", "a", 0), ("d", {"a": {"b": "x", "c": 2}}), ("d", {"a": {"b": {"c": 1}}}), ("d", {"b": 5})]
+               ("sv", "a", 0), ("d", {"a": {"b": "x", "c": 2}}), ("d", {"a": {"b": {"c": 1}}}), ("d", {"b": 5}),
+               # dictionary values that leave items of an existing a.b alone
+               ("sv", "a.b", {"d": 2}), ("sv", "a.b", {})]
 
 
 def _denoted(o):
@@ -795,7 +819,8 @@ LEVEL_TEXT = ("bounded exhaustive exploration: every ordered pair of every neste
               "{-1, 0, 1, 2, 3}, plus every ordered triple of the 144-dictionary family, is executed on the "
               "real intersection / difference / update_recursively / update_nested and judged against a "
               "containment / greatest-lower-bound / merge reference and the algebraic laws")
-LEVEL_NOTE = ("holds for the enumerated families only (two keys, depth <= 3, eight leaf values); dictionaries "
-              "that alias each other before the call, non-string keys and dict subclasses are outside the alphabet")
+LEVEL_NOTE = ("holds for the enumerated families only (two keys, depth <= 3, eight leaf values); arguments "
+              "whose equal sub-dictionaries are one object are included, dictionaries that alias each other "
+              "across arguments before the call, non-string keys and dict subclasses are outside the alphabet")
 TECHNIQUE = ("exhaustive enumeration of dictionary families on the real code against an independent reference "
              "model and differential laws (commutativity, associativity, idempotence, reconstruction)")
